@@ -103,7 +103,8 @@ func Rank128(words []uint64, rindex []int32, i int32) (int32, int32) {
 	j := uint32(i & 63)
 	atRight := wordI & 1
 
-	n := rindex[(i+64)>>7]
+	// i+64 overflows int32 in the last word of a bitmap of 2^31 bits.
+	n := rindex[(uint32(i)+64)>>7]
 	w := words[wordI]
 
 	cnt1 := int32(bits.OnesCount64(w))
